@@ -147,7 +147,7 @@ func TestC07(t *testing.T) {
 					if cancelPlane {
 						plane = "cancel"
 					}
-					trace = append(trace, fmt.Sprintf("  %s at %d/%d (%s) -> %v halted=%v", plane, k, n, what, perr, isHalted(A)))
+					trace = append(trace, clip(fmt.Sprintf("  %s at %d/%d (%s) -> %v halted=%v", plane, k, n, what, perr, isHalted(A)), 220))
 					fp, _ := dbFingerprint(A.DB)
 					if perr == nil {
 						// the fault did not surface: the block must then be completely recorded
